@@ -27,6 +27,7 @@ def cases(tier):
         for tf in range(2):
             for nt in range(2):
                 cs.append(dict(name=f"mtl_agg{agg}_{tf}{nt}", fn="mtl", args=dict(tier=tier), prefix=[agg, tf, nt], weight=3))
+        cs.append(dict(name=f"single_row_agg{agg}", fn="single", args=dict(tier=tier), prefix=[agg], weight=1))
     return cs
 
 
@@ -64,6 +65,17 @@ def case_layout(sp, tier):
     outs = ["y1", "y2"]
     ins = ["a", "b"] if choice(2, "inputs") == 0 else ["b"]
     return _compare(sp, spec, ranks, outs, ins, ai, chunk_by_choice=True)
+
+
+def case_single(sp, tier):
+    """a single output (possibly a single ROW) - Constant with one arbitrary weight must still scale the gradient"""
+    set_kernels()
+    ai = choice(3, "aggregator_kind")
+    sy = [(), (1,), (1, 1), (2,)][choice(4, "shape_y")]
+    sa = S3[choice(3, "shape_a")]
+    spec = dict(leaves=[("a", sa, True), ("b", (2,), True)], ops=[dict(name="f", inputs=["a", "b"], outs=[("y", sy)], deps={(0, 0), (0, 1)})])
+    ranks = {"a": 0, "b": 1, "y": 10}
+    return _compare(sp, spec, ranks, ["y"], ["a", "b"], ai, chunk_by_choice=True)
 
 
 def case_graph(sp, tier):
